@@ -210,6 +210,9 @@ static void remember_note (nsync_note n) { int i; if (n == NULL) { return; } for
 static void forget_note (nsync_note n) { int i; for (i = 0; i != nnotes_seen; i++) { if (all_notes[i] == n) { all_notes[i] = all_notes[--nnotes_seen]; return; } } }
 static void dump_notes (void) {
 	int i;
+	/* with plain-access scheduling points another fiber may be in the MIDDLE of a list manipulation under the note's
+	   mutex: the unlocked walk below would read an inconsistent list (it once looped for ever): no digest then */
+	if (vf_plain_sched () != 0) { return; }
 	for (i = 0; i != nnotes_seen; i++) {
 		nsync_note n = all_notes[i]; char ch[256]; int cn = 0; int nw = 0; nsync_dll_element_ *p;
 		ch[0] = 0;
@@ -217,7 +220,7 @@ static void dump_notes (void) {
 			cn += snprintf (ch + cn, sizeof (ch) - cn, "%s%s", cn ? "," : "", vf_name_of (p->container) ? vf_name_of (p->container) : "?");
 			if (cn > 200) { break; }
 		}
-		for (p = nsync_dll_first_ (n->waiters); p != NULL; p = nsync_dll_next_ (n->waiters, p)) { nw++; }
+		for (p = nsync_dll_first_ (n->waiters); p != NULL && nw < 1000; p = nsync_dll_next_ (n->waiters, p)) { nw++; }
 		vf_log_env ("state %s parent=%s children=[%s] waiters=%d disc=%u notified=%u", vf_name_of (n), n->parent ? vf_name_of (n->parent) : "-", ch, nw,
 			    (unsigned) n->disconnecting, (unsigned) *(volatile uint32_t *) &n->notified);
 	}
@@ -655,6 +658,7 @@ int main (int argc, char **argv) {
 								pid = fork ();
 								if (pid == 0) {
 									char *c = strdup (lines[j] + 5); char *sv2; char *kv; int k; int outcome;
+									alarm (60); /* wall-clock watchdog: a loop without any scheduling point ends as `signal-14` (classified as a crash) instead of hanging the check */
 									default_cfg (&cfg);
 									for (k = 4; k < argc; k++) { apply_kv (&cfg, argv[k], &ss); }
 									for (kv = strtok_r (c, " ", &sv2); kv; kv = strtok_r (NULL, " ", &sv2)) { apply_kv (&cfg, kv, &ss); }
